@@ -893,3 +893,128 @@ Proof.
   - rewrite Hd, Hx. exact Hm.
   - apply dashed_flatten. exact Hds.
 Qed.
+
+(* ================================================================= I. build plans *)
+Inductive subl {A} : list A -> list A -> Prop :=
+| subl_nil : subl [] []
+| subl_skip a l1 l2 : subl l1 l2 -> subl l1 (a :: l2)
+| subl_keep a l1 l2 : subl l1 l2 -> subl (a :: l1) (a :: l2).
+Lemma subl_refl {A} (l : list A) : subl l l.
+Proof. induction l; [apply subl_nil|apply subl_keep; auto]. Qed.
+Lemma subl_nil_l {A} (l : list A) : subl [] l.
+Proof. induction l; [apply subl_nil|apply subl_skip; auto]. Qed.
+Lemma subl_In {A} (l1 l2 : list A) x : subl l1 l2 -> In x l1 -> In x l2.
+Proof. induction 1; cbn; intuition. Qed.
+Lemma subl_NoDup {A} (l1 l2 : list A) : subl l1 l2 -> NoDup l2 -> NoDup l1.
+Proof.
+  induction 1 as [|a l1 l2 H IH|a l1 l2 H IH]; intros Hn; auto; inversion Hn; subst; auto.
+  constructor; auto. intros Hin. eapply subl_In in Hin; eauto.
+Qed.
+Lemma subl_app {A} (a1 a2 b1 b2 : list A) : subl a1 a2 -> subl b1 b2 -> subl (a1 ++ b1) (a2 ++ b2).
+Proof. induction 1; cbn; intros Hb; auto; [apply subl_skip|apply subl_keep]; auto. Qed.
+Lemma subl_app_skip {A} (x y z : list A) : subl x y -> subl x (z ++ y).
+Proof. intros H. induction z; cbn; auto. apply subl_skip; auto. Qed.
+Lemma subl_filter {A} (f : A -> bool) (l : list A) : subl (filter f l) l.
+Proof. induction l as [|a l IH]; cbn; [constructor|]. destruct (f a); [apply subl_keep|apply subl_skip]; auto. Qed.
+Lemma subl_map {A B} (f : A -> B) (l1 l2 : list A) : subl l1 l2 -> subl (map f l1) (map f l2).
+Proof. induction 1; cbn; [apply subl_nil|apply subl_skip|apply subl_keep]; auto. Qed.
+Lemma subl_concat {A} (l1 l2 : list (list A)) : subl l1 l2 -> subl (concat l1) (concat l2).
+Proof.
+  induction 1; cbn; [constructor|apply subl_app_skip; auto|apply subl_app; auto using subl_refl].
+Qed.
+Lemma subl_concat_map2 {A B} (g' g : A -> list B) : forall l' l, subl l' l ->
+  (forall a, In a l -> subl (g' a) (g a)) -> subl (concat (map g' l')) (concat (map g l)).
+Proof.
+  induction 1 as [|a l1 l2 H IH|a l1 l2 H IH]; cbn; intros Hg; [constructor| |].
+  - apply subl_app_skip. apply IH. intros; apply Hg; auto.
+  - apply subl_app; [apply Hg; auto|]. apply IH. intros; apply Hg; auto.
+Qed.
+Lemma concat_map_concat {A B C} (f : B -> C) (h : A -> list B) (ls : list A) :
+  concat (map (fun x => map f (h x)) ls) = map f (concat (map h ls)).
+Proof. induction ls as [|a r IH]; cbn; [reflexivity|]. rewrite map_app, IH. reflexivity. Qed.
+Lemma concat_concat_map {A B} (h : A -> list (list B)) (ls : list A) :
+  concat (concat (map h ls)) = concat (map (fun x => concat (h x)) ls).
+Proof. induction ls as [|a r IH]; cbn; [reflexivity|]. rewrite concat_app, IH. reflexivity. Qed.
+
+Definition gleaves (g : list (req * value)) : list lval := concat (map (fun qv => leaves (snd qv)) g).
+Lemma gpins_gleaves g : gpins g = lpins (gleaves g).
+Proof.
+  unfold gpins, gleaves, lpins, value_pins. induction g as [|qv r IH]; cbn; [reflexivity|].
+  rewrite map_app, concat_app, IH. reflexivity.
+Qed.
+Lemma granted_ok_wf t cm g : Forall (granted_ok t cm) g -> Forall (fun l => wf_port (lv_port l)) (gleaves g).
+Proof.
+  unfold gleaves. induction 1 as [|qv r (res & _ & _ & Hw) _ IH]; cbn; [constructor|].
+  apply Forall_app. split; [|exact IH]. eapply Forall_impl; [|exact Hw]. cbn. tauto.
+Qed.
+
+Lemma used_pins_subl v (ls' ls : list lval) : subl ls' ls -> Forall (fun l => wf_port (lv_port l)) ls ->
+  subl (map c_pin (port_constraints (concat (map (fun l => used_ioports v (lv_port l)) ls')))) (lpins ls).
+Proof.
+  intros Hs Hw. rewrite port_constraints_pins. rewrite <- concat_map_concat, concat_concat_map.
+  unfold lpins. apply subl_concat_map2; [exact Hs|].
+  intros l Hl. rewrite Forall_forall in Hw. rewrite <- (port_ioports_pins _ (Hw l Hl)).
+  apply subl_concat. apply subl_map. apply subl_filter.
+Qed.
+
+Lemma sys_go_run t cm : forall ex st outs vals st' vals',
+  sys_go t cm ex st vals = inr (st', vals') ->
+  exists sv, vals' = vals ++ sv /\ length sv = length ex /\
+    fold_left (step t cm) ex (st, outs) = (st', outs ++ combine ex (map Ok sv)).
+Proof.
+  induction ex as [|q r IH]; intros st outs vals st' vals' H; cbn in H.
+  - inversion H; subst. exists []. rewrite !app_nil_r. auto.
+  - destruct (request t cm st q) as [s1 [v|e]] eqn:E; [|discriminate].
+    destruct (IH s1 (outs ++ [(q, Ok v)]) _ _ _ H) as (sv & Hv & Hl & Hf).
+    exists (v :: sv). rewrite Hv, <- app_assoc. split; [reflexivity|]. split; [cbn; lia|].
+    cbn [fold_left]. unfold step at 2. cbn [fst snd]. rewrite E, Hf, <- app_assoc. reflexivity.
+Qed.
+Lemma granted_combine_ok ex : forall sv, length sv = length ex -> granted (combine ex (map Ok sv)) = combine ex sv.
+Proof. induction ex as [|q r IH]; intros [|v sv] H; cbn in *; try discriminate; auto. rewrite IH by lia. reflexivity. Qed.
+Lemma gleaves_combine ex : forall sv, length sv = length ex -> gleaves (combine ex sv) = concat (map leaves sv).
+Proof.
+  unfold gleaves. induction ex as [|q r IH]; intros [|v sv] H; cbn in *; try discriminate; auto.
+  rewrite IH by lia. reflexivity.
+Qed.
+
+Lemma build_spec v t cm hist dclk drst unused outs pl :
+  build v t cm hist dclk drst unused = (outs, inr pl) ->
+  outs = snd (run t cm hist) /\
+  exists st outs', run t cm (hist ++ sys_reqs dclk drst) = (st, outs') /\
+    subl (map c_pin (pl_constraints pl)) (map fst (phys_reqd st)) /\
+    NoDup (map c_pin (pl_constraints pl)) /\
+    pl_clocks pl = (if vendor_clocks v then io_clocks st else []).
+Proof.
+  unfold build.
+  destruct (run t cm hist) as [st0 outs0] eqn:Er. cbn [fst snd].
+  destruct (sys_go t cm (sys_reqs dclk drst) st0 []) as [e|[st sv]] eqn:Eg; intros H; inversion H; subst; clear H.
+  split; [reflexivity|].
+  destruct (sys_go_run t cm _ _ outs _ _ _ Eg) as (sv' & Hv & Hl & Hf). cbn in Hv. subst sv'.
+  exists st, (outs ++ combine (sys_reqs dclk drst) (map Ok sv)).
+  assert (Hrun : run t cm (hist ++ sys_reqs dclk drst) = (st, outs ++ combine (sys_reqs dclk drst) (map Ok sv))).
+  { unfold run in *. rewrite fold_left_app, Er. exact Hf. }
+  split; [exact Hrun|].
+  pose proof (run_inv t cm (hist ++ sys_reqs dclk drst)) as I. rewrite Hrun in I.
+  unfold Inv in I. cbn [fst snd] in I. destruct I as (_ & P & N & _ & _ & G).
+  rewrite granted_app, granted_combine_ok in * by exact Hl.
+  set (g := granted outs ++ combine (sys_reqs dclk drst) sv) in *.
+  assert (S : subl (map c_pin (port_constraints (concat (map (fun l => used_ioports v (lv_port l))
+                (filter (fun l => negb (path_mem (pt_path (lv_port l)) unused)) (gleaves (granted outs))
+                 ++ concat (map leaves sv)))))) (map fst (phys_reqd st))).
+  { rewrite P, gpins_gleaves. apply used_pins_subl; [|apply (granted_ok_wf t cm); exact G].
+    unfold g, gleaves. rewrite map_app, concat_app. fold (gleaves (granted outs)).
+    fold (gleaves (combine (sys_reqs dclk drst) sv)). rewrite gleaves_combine by exact Hl.
+    apply subl_app; [apply subl_filter|apply subl_refl]. }
+  assert (E : map c_pin (pl_constraints (mkPlan
+                (if vendor_attrs v then port_constraints (concat (map (fun l => used_ioports v (lv_port l))
+                   (filter (fun l => negb (path_mem (pt_path (lv_port l)) unused)) (gleaves (granted outs)) ++ concat (map leaves sv))))
+                 else map strip_attrs (port_constraints (concat (map (fun l => used_ioports v (lv_port l))
+                   (filter (fun l => negb (path_mem (pt_path (lv_port l)) unused)) (gleaves (granted outs)) ++ concat (map leaves sv))))))
+                (if vendor_clocks v then clock_constraints st else [])))
+              = map c_pin (port_constraints (concat (map (fun l => used_ioports v (lv_port l))
+                   (filter (fun l => negb (path_mem (pt_path (lv_port l)) unused)) (gleaves (granted outs)) ++ concat (map leaves sv)))))).
+  { cbn [pl_constraints]. destruct (vendor_attrs v); [reflexivity|]. rewrite map_map. reflexivity. }
+  unfold gleaves in E, S. rewrite E. split; [exact S|]. split.
+  - eapply subl_NoDup; [exact S|]. rewrite P. exact N.
+  - reflexivity.
+Qed.
